@@ -54,7 +54,7 @@ pub fn plan(id: &str) -> Option<Plan> {
             rule: "receive maximum in {1,2,3,10,absent}, bursts of QoS1/2 publishes, delayed and reordered acks, resumed sessions with retransmissions, one-at-a-time drain policy; non-trivial = a QoS>0 flow was counted", assumptions: common_assume },
         "C10" => Plan { id: "C10", level: "exploration", cases_quick: 6_000, cases_thorough: 200_000, enumerate: None, extra_families: vec![], nontrivial: vec!["c10.first_appearances"], gates: vec![("c10.first_appearances", 100_000), ("c10.retransmissions_ordered", 300)], wrap_runs: (0, 0),
             rule: "20..400 operations per history with closes at random steps (queues have been pushed/popped thousands of times), both session outcomes, all policies, receive-maximum stalls; non-trivial = a first appearance was order-checked", assumptions: common_assume },
-        "C11" => Plan { id: "C11", level: "exploration", cases_quick: 60_000, cases_thorough: 3_000_000, enumerate: None, extra_families: vec![("C11H", 35), ("C07", 10)], nontrivial: vec!["c02.wire_packets"], gates: vec![("c11.post_error_probes", 2000)], wrap_runs: (0, 0),
+        "C11" => Plan { id: "C11", level: "exploration", cases_quick: 60_000, cases_thorough: 3_000_000, enumerate: None, extra_families: vec![("C11H", 35), ("C07", 10)], nontrivial: vec!["c02.wire_packets"], gates: vec![("c11.post_error_probes", 2000), ("c11.pingresp_while_disconnect_pending", 5), ("c11.ack_while_disconnect_pending", 20)], wrap_runs: (0, 0),
             rule: "chaotic driver: hostile acks (wrong type, unknown id), CONNACK at any time, AUTH, mutated/garbage bytes, data while writes are pending, extreme configuration values; plus honest-broker executions (every legal reason code, slow acks) for the never-accused rule; non-trivial = the client emitted at least one packet", assumptions: common_assume },
         "C14" => Plan { id: "C14", level: "exploration", cases_quick: 30_000, cases_thorough: 1_000_000, enumerate: None, extra_families: vec![], nontrivial: vec!["c14.pings_seen"], gates: vec![("c14.pings_seen", 5000), ("c14.keepalive_timeouts", 500), ("c14.pingresp_before_deadline", 2000)], wrap_runs: (0, 0),
             rule: "virtual clock, prompt contract driver, writes complete instantly; K in {0,1,2,3,5,7,59,60,61,1199,1200,65535} from client and/or server, ping timeouts around K/2, PINGRESP delays around the deadline or withheld; non-trivial = a PINGREQ was observed", assumptions: common_assume },
